@@ -374,13 +374,13 @@ int main(int argc, char **argv)
 		});
 		{
 			client c; int tries = 0;
-			while (!c.open("scgi") && tries++ < 400) usleep(5000);
+			while (!c.open("scgi") && tries++ < 6000) usleep(5000);
 			c.closefd();
 			tries = 0;
-			while (!c.open("fcgi") && tries++ < 400) usleep(5000);
+			while (!c.open("fcgi") && tries++ < 6000) usleep(5000);
 			c.closefd();
 			tries = 0;
-			while (!c.open("http") && tries++ < 400) usleep(5000);
+			while (!c.open("http") && tries++ < 6000) usleep(5000);
 			c.closefd();
 		}
 		std::string line;
